@@ -35,6 +35,11 @@ def alphabet(name):
     return [(p, d) for d in DOMAINS for p in pays]
 
 
+def trace_variant(desc, tier):
+    """With trace logging enabled: the caller-owned-header histories and the full alphabet at the smaller depth."""
+    return bool(desc.get("hdr")) or desc["alpha"] == "full"
+
+
 def tasks(tier, seed):
     ts = []
     plans = [("full", 2), ("small", 3)] if tier == "quick" else [("full", 3), ("small", 4)]
